@@ -456,7 +456,11 @@ Xml Xml::decode(const String& x)
 		if (state == ERR)
 			return Xml();
 	}
-	return (elems.top().numChildren() == 1)? elems.top().child(0) : Xml();
+	if (elems.top().numChildren() != 1)
+		return Xml();
+	Xml root = elems.top().child(0);
+	root._()->parent = NULL; // the temporary holder element is destroyed on return
+	return root;
 }
 
 
